@@ -26,7 +26,8 @@ EVs     == {"true", "false", "absent"}                  \* standard email_verifi
 \* where the session's claims live.  tok: all in the token.  email_prof: the token lacks e-mail (profile has it; the profile also
 \* carries OTHER groups / username than the token).  groups_prof: the token lacks groups and preferred_username (profile has them).
 \* no_groups: neither token nor profile has groups.  ev_split: token says email_verified = false and lacks groups, profile says true.
-Claims  == {"tok", "email_prof", "groups_prof", "no_groups", "ev_split"}
+\* email_prof_unv: the token carries neither e-mail nor email_verified; the profile has the e-mail and says email_verified = false.
+Claims  == {"tok", "email_prof", "groups_prof", "no_groups", "ev_split", "email_prof_unv"}
 
 \* claimMap = "custom": the operator configured other claims for e-mail and groups (oidc-email-claim = mail, oidc-groups-claim = roles);
 \* every token carries the standard AND the custom claims with different values: the session must take the configured ones
@@ -39,14 +40,15 @@ Good == [sig |-> "right", iss |-> "match", aud |-> "client", exp |-> "future", e
 \* ---- requirement -------------------------------------------------------------------------------
 AudOK(t, cfg) == t.aud \in {"client", "list_with"} \/ (t.aud = "extra" /\ cfg.extraAud)
 \* the token's own email_verified decides; the profile is consulted only when the token lacks the claim
-Verified(t) == IF t.claims = "ev_split" THEN FALSE ELSE t.ev # "false"
+\* (an e-mail that comes from the profile is verified or not as the profile says)
+Verified(t) == IF t.claims \in {"ev_split", "email_prof_unv"} THEN FALSE ELSE t.ev # "false"
 Req_Acceptable(t, cfg, path) ==
     /\ t.sig = "right" /\ t.iss = "match" /\ AudOK(t, cfg) /\ t.exp = "future"
     /\ (Verified(t) \/ cfg.allowUnverified)
 \* which source each session field must come from ("tok" / "prof" / "none"); the bearer path has no access token and therefore no profile
 Src(t, path, field) ==
     LET prof == IF path \in {"bearer", "xbearer", "xbearer0"} THEN "none" ELSE "prof" IN
-    CASE field = "email"  -> IF t.claims = "email_prof" THEN prof ELSE "tok"
+    CASE field = "email"  -> IF t.claims \in {"email_prof", "email_prof_unv"} THEN prof ELSE "tok"
       [] field = "groups" -> IF t.claims \in {"groups_prof", "ev_split"} THEN prof ELSE IF t.claims = "no_groups" THEN "none" ELSE "tok"
       [] field = "pu"     -> IF t.claims = "groups_prof" THEN prof ELSE "tok"
       [] OTHER            -> "tok"
@@ -57,7 +59,8 @@ Req_IdentityCustom     == [user |-> "tok", email |-> "custom", groups |-> "custo
 Differs(t) == Cardinality({f \in DOMAIN Good : t[f] # Good[f]})
 InScope(c) ==
     \* the bearer path cannot take the e-mail from a profile: a token without e-mail falls back to the subject there (documented)
-    /\ (c.path \in {"bearer", "xbearer", "xbearer0"} => c.tok.claims \notin {"email_prof", "ev_split"})
+    /\ (c.path \in {"bearer", "xbearer", "xbearer0"} => c.tok.claims \notin {"email_prof", "ev_split", "email_prof_unv"})
+    /\ (c.tok.claims = "email_prof_unv" => c.tok.ev = "true")       \* (the token's own claim is absent in this variant: the field is unused)
     /\ (c.path \in {"xbearer", "xbearer0"} => /\ ~c.cfg.extraAud /\ c.cfg.audClaim = "aud" /\ ~c.cfg.allowUnverified /\ c.cfg.keys = "discovery"
                                                /\ c.cfg.claimMap = "default" /\ c.tok.claims = "tok" /\ Differs(c.tok) <= 1
                                                /\ c.tok.aud \in {"client", "other", "absent"})
